@@ -3,6 +3,7 @@
 From DS Require Import Base.Prelude Base.Bytes Base.FloatBits Base.HllSort Model.Hll Model.HllUnion Model.HllCodec Spec.HllLayout
   Proofs.HllBase Proofs.HllArray8 Proofs.HllArray6 Proofs.HllOpenAddr Proofs.HllSet Proofs.HllAux Proofs.HllArray4
   Proofs.HllRefine Proofs.HllUnionProofs Proofs.HllCodecProofs.
+From DS Require Gen.GenHll Gen.GenCodec.
 From Coq Require Import ZifyBool ZifyNat ZifyN Permutation.
 Open Scope N_scope.
 Ltac Zify.zify_post_hook ::= Z.div_mod_to_equations.
@@ -67,11 +68,11 @@ Proof.
 Qed.
 
 (* ---------- list images ---------- *)
-Lemma list_image_conforms : forall lgk t (l : hlist) ds, 4 <= lgk <= 21 -> ListInv l ds -> hl_lg l = 3 -> (length ds < 8)%nat ->
+Lemma list_image_conforms : forall lgk t (l : hlist) ds, 4 <= lgk <= 21 -> ListInv l ds -> (length ds < 8)%nat ->
   Forall valid ds ->
   hll_spec_decode (list_serialize l lgk t) = Some (mkImg lgk (tgt_num t) 0 false ds [] 0 0 0 0 0 []).
 Proof.
-  intros lgk t l ds Hlg HL Hl3 Hlen Hv. pose proof HL as (Hc & Hl & Hnd & H0 & _).
+  intros lgk t l ds Hlg HL Hlen Hv. pose proof HL as (Hc & Hl & Hnd & H0 & _ & Hl3).
   destruct (mode_byte_mod MODE_LIST t ltac:(vm_compute; reflexivity)) as (Hm1 & Hm2). pose proof (tgt_num_lt3 t) as Ht3.
   unfold list_serialize. rewrite Hl3, Hc, (filter_nonzero_app_zeros ds _ H0), Hl, Nat2N.id, firstn_all.
   replace (3 mod 256) with 3 by reflexivity. replace (N.of_nat (length ds) mod 256) with (N.of_nat (length ds)) by (symmetry; apply N.mod_small; lia).
@@ -292,7 +293,7 @@ Proof.
 Qed.
 
 Lemma a6_image_conforms : forall lgk cs (a : arr6 hip), 4 <= lgk <= 21 -> a6_lgk a = lgk -> WFb (a6_bytes a) ->
-  (forall j, a6_get a j = spec_regs lgk cs j) -> a6_nz a = spec_zeros lgk cs ->
+  (forall j, j < 2 ^ lgk -> a6_get a j = spec_regs lgk cs j) -> a6_nz a = spec_zeros lgk cs ->
   exists im, hll_spec_decode (a6_serialize a lgk) = Some im /\ im_lgk im = lgk /\ im_type im = 1 /\ im_mode im = 2 /\
     im_ooo im = h_ooo (a6_est a) /\ im_regs im = map (spec_regs lgk cs) (Nseq 0 (N.to_nat (2 ^ lgk))) /\
     im_num_at_cur_min im = spec_zeros lgk cs /\ im_cur_min im = 0 /\ im_aux im = [].
@@ -315,7 +316,7 @@ Proof.
   eexists. split; [reflexivity|]. cbn [im_lgk im_type im_mode im_ooo im_regs im_num_at_cur_min im_cur_min im_aux].
   repeat split; try reflexivity; try assumption.
   rewrite lseq_Nseq. apply map_ext_in. intros s Hs. apply Nseq_range_In in Hs.
-  rewrite six_bits_get_raw; [apply Hr|assumption|assumption|]. apply a6_slot_bytes; [lia|assumption].
+  rewrite six_bits_get_raw; [now apply Hr|assumption|assumption|]. apply a6_slot_bytes; [lia|assumption].
 Qed.
 
 (* Hll4 *)
@@ -401,49 +402,55 @@ Proof.
 Qed.
 
 (* ---------- every image the writer emits conforms ---------- *)
-Definition a6_wf (s : hsketch) : Prop := match sk_mode s with MArr6 a => WFb (a6_bytes a) | _ => True end.
+(* the out-of-order flag of the estimator (false in list / set mode) *)
+Definition sk_ooo (s : hsketch) : bool := match sk_est_inputs s with Some (e, _) => h_ooo e | None => false end.
 
+(* what the independent decoder must recover: lg_k, target type, mode, the OOO flag; in list / set
+   mode the coupon set; in array mode (ALL three types) the Spec register file, a cur_min byte that
+   is a lower bound of the registers (0 for Hll6 / Hll8) and the number of registers equal to it *)
 Definition image_shows (lgk : N) (cs : list N) (s : hsketch) (im : himage) : Prop :=
-  im_lgk im = lgk /\ im_type im = tgt_num (sk_tgt s) /\
+  im_lgk im = lgk /\ im_type im = tgt_num (sk_tgt s) /\ im_ooo im = sk_ooo s /\
   match sk_tag s with
   | TagList => im_mode im = 0 /\ NoDup (im_coupons im) /\ (forall c, In c (im_coupons im) <-> In c cs)
   | TagSet => im_mode im = 1 /\ NoDup (im_coupons im) /\ (forall c, In c (im_coupons im) <-> In c cs)
-  | TagArray => im_mode im = 2 /\ im_regs im = map (spec_regs lgk cs) (Nseq 0 (N.to_nat (2 ^ lgk)))
+  | TagArray => im_mode im = 2 /\ im_regs im = map (spec_regs lgk cs) (Nseq 0 (N.to_nat (2 ^ lgk))) /\
+                (sk_tgt s <> T4 -> im_cur_min im = 0) /\
+                (forall j, j < 2 ^ lgk -> im_cur_min im <= spec_regs lgk cs j) /\
+                im_num_at_cur_min im = count_regs (2 ^ lgk) (fun j => spec_regs lgk cs j =? im_cur_min im)
   end.
 
-Theorem hll_image_conforms : forall lgk arrf cs s, SrcOK lgk arrf cs s -> list_lg_ok s -> a6_wf s ->
+Theorem hll_image_conforms : forall lgk arrf cs s, SrcOK lgk arrf cs s ->
   exists im, hll_spec_decode (hll_serialize s) = Some im /\ image_shows lgk cs s im.
 Proof.
-  intros lgk arrf cs s HS Hl3 Hw6. pose proof HS as (Hk & Hlg & Hv & Hm).
-  unfold hll_serialize, image_shows, list_lg_ok, a6_wf, sk_tag, sk_tgt in *. rewrite Hk.
+  intros lgk arrf cs s HS. pose proof HS as (Hk & Hlg & Hv & Hm).
+  unfold hll_serialize, image_shows, sk_tag, sk_tgt, sk_ooo, sk_est_inputs in *. rewrite Hk.
   destruct (sk_mode s) as [l t|st t|a|a|a] eqn:Em.
   - destruct Hm as (_ & ds & HL & Hlen & Hss).
-    rewrite (list_image_conforms lgk t l ds Hlg HL Hl3 Hlen (forall_valid_set ds cs Hss Hv)).
-    eexists. split; [reflexivity|]. cbn [im_lgk im_type im_mode im_coupons]. split; [reflexivity|]. split; [reflexivity|].
-    split; [reflexivity|]. split; [now destruct HL as (_ & _ & ? & _)|assumption].
+    rewrite (list_image_conforms lgk t l ds Hlg HL Hlen (forall_valid_set ds cs Hss Hv)).
+    eexists. split; [reflexivity|]. cbn [im_lgk im_type im_mode im_coupons im_ooo]. split; [reflexivity|]. split; [reflexivity|].
+    split; [reflexivity|]. split; [reflexivity|]. split; [now destruct HL as (_ & _ & ? & _)|assumption].
   - destruct Hm as (_ & H8 & H5 & H3 & HR & _ & Hload).
     rewrite (set_image_conforms lgk t st cs ltac:(lia) H5 H3 HR Hv Hload).
-    eexists. split; [reflexivity|]. cbn [im_lgk im_type im_mode im_coupons]. split; [reflexivity|]. split; [reflexivity|].
-    split; [reflexivity|]. split.
+    eexists. split; [reflexivity|]. cbn [im_lgk im_type im_mode im_coupons im_ooo]. split; [reflexivity|]. split; [reflexivity|].
+    split; [reflexivity|]. split; [reflexivity|]. split.
     + apply (Permutation_NoDup (sortN_perm _)). now apply (set_iter_NoDup (hs_lg st) st cs).
     + intros c. rewrite <- (set_iter_In (hs_lg st) st cs c HR). split; intros Hc.
       * apply (Permutation_in _ (Permutation_sym (sortN_perm _)) Hc).
       * apply (Permutation_in _ (sortN_perm _) Hc).
   - destruct Hm as (_ & HI & _).
-    destruct (a4_image_conforms lgk _ a Hlg HI ltac:(intros j _; now apply spec_regs_bound)) as (im & Hd & A & B & C & _ & F & _).
-    exists im. split; [assumption|]. split; [assumption|]. split; [assumption|]. split; assumption.
-  - destruct Hm as (_ & Hk6 & Hr & Hz).
-    destruct (a6_image_conforms lgk cs a Hlg Hk6 Hw6 Hr Hz) as (im & Hd & A & B & C & _ & F & _).
-    exists im. split; [assumption|]. split; [assumption|]. split; [assumption|]. split; assumption.
+    destruct (a4_image_conforms lgk _ a Hlg HI ltac:(intros j _; now apply spec_regs_bound)) as (im & Hd & A & B & C & D & F & G & H & _).
+    exists im. split; [assumption|]. split; [assumption|]. split; [assumption|]. split; [assumption|]. split; [assumption|].
+    split; [assumption|]. split; [intros Hne; now elim Hne|]. pose proof HI as (_ & HC & Hn). split.
+    + intros j Hj. rewrite G. pose proof (core4_ge lgk _ _ _ _ j HC Hj). lia.
+    + rewrite H, G, Hn. reflexivity.
+  - destruct Hm as (_ & Hk6 & W & Hr & Hz).
+    destruct (a6_image_conforms lgk cs a Hlg Hk6 W Hr Hz) as (im & Hd & A & B & C & D & F & G & H & _).
+    exists im. split; [assumption|]. split; [assumption|]. split; [assumption|]. split; [assumption|]. split; [assumption|].
+    split; [assumption|]. split; [intros _; assumption|]. rewrite H. split; [intros; lia|]. rewrite G. reflexivity.
   - destruct Hm as (_ & Hk8 & Hr & Hz).
-    destruct (a8_image_conforms lgk cs a Hlg Hk8 Hr Hz) as (im & Hd & A & B & C & _ & F & _).
-    exists im. split; [assumption|]. split; [assumption|]. split; [assumption|]. split; assumption.
-Qed.
-
-Lemma sim_a6_wf : forall (ao : N -> list N -> Prop) lgk t seen (s s8 : hsketch), Sim hip ao lgk t seen s s8 -> a6_wf s.
-Proof.
-  intros ao lgk t seen s s8 HS. unfold a6_wf. destruct HS as [l ds|st|fed e m m8 Hf Hfv Ha HR HR8]; cbn [sk_mode]; try exact I.
-  destruct t, m; cbn [RepT] in HR; try contradiction; try exact I. now destruct HR as (_ & W & _).
+    destruct (a8_image_conforms lgk cs a Hlg Hk8 Hr Hz) as (im & Hd & A & B & C & D & F & G & H & _).
+    exists im. split; [assumption|]. split; [assumption|]. split; [assumption|]. split; [assumption|]. split; [assumption|].
+    split; [assumption|]. split; [intros _; assumption|]. rewrite H. split; [intros; lia|]. rewrite G. reflexivity.
 Qed.
 
 (* for every stream: the image of the reached sketch decodes, under the independent decoder, to the
@@ -455,11 +462,35 @@ Proof.
   intros lgk t cs Hlg Hv.
   destruct (sim_stream hip hip_new hip_update hip_carry AC AC_cons AC_cond lgk t cs Hlg Hv) as (s & s8 & Hr & _ & HS).
   destruct (stream_is_source lgk t cs Hlg Hv) as (s' & Hr' & HSrc). assert (s' = s) by congruence. subst s'.
-  assert (Hl : list_lg_ok s).
-  { unfold run_stream, sketch_new in Hr. destruct ((4 <=? lgk) && (lgk <=? 21)); cbn [obind] in Hr; [|discriminate].
-    apply (run_list_lg cs (mkSketch lgk (MList (list_new LG_INIT_LIST_SIZE) t)) s); [reflexivity|assumption]. }
-  destruct (hll_image_conforms lgk _ cs s HSrc Hl (sim_a6_wf _ _ _ _ _ _ HS)) as (im & Hd & Hsh).
+  destruct (hll_image_conforms lgk _ cs s HSrc) as (im & Hd & Hsh).
   pose proof (sim_abs hip lgk t (rev cs) s s8 Hlg HS) as Habs.
   apply (abs_ok_set hip lgk t (rev cs) cs) in Habs; [|intros c; symmetry; apply in_rev]. destruct Habs as (_ & Ht & Htag & _).
   exists s, im. split; [assumption|]. split; [assumption|]. split; [assumption|]. split; assumption.
 Qed.
+
+(* ---------- the constants translated from the Rust sources are the specification's ---------- *)
+Lemma layout_glue :
+  zN GenHll.SERIAL_VERSION = L_SER_VER /\ zN GenCodec.FAMILY_HLL_ID = L_FAMILY /\
+  zN GenHll.LIST_PREINTS = L_PRE_LIST /\ zN GenHll.HASH_SET_PREINTS = L_PRE_SET /\ zN GenHll.HLL_PREINTS = L_PRE_HLL /\
+  zN GenHll.LIST_PREAMBLE_SIZE = 4 * L_PRE_LIST /\ zN GenHll.SET_PREAMBLE_SIZE = 4 * L_PRE_SET /\
+  zN GenHll.HLL_PREAMBLE_SIZE = 4 * L_PRE_HLL /\
+  zN GenHll.EMPTY_FLAG_MASK = L_FLAG_EMPTY /\ zN GenHll.COMPACT_FLAG_MASK = L_FLAG_COMPACT /\
+  zN GenHll.OUT_OF_ORDER_FLAG_MASK = L_FLAG_OOO /\
+  zN GenHll.CUR_MODE_LIST = L_MODE_LIST /\ zN GenHll.CUR_MODE_SET = L_MODE_SET /\ zN GenHll.CUR_MODE_HLL = L_MODE_HLL /\
+  zN GenHll.TGT_HLL4 = 0 /\ zN GenHll.TGT_HLL6 = 1 /\ zN GenHll.TGT_HLL8 = 2 /\
+  zN GenHll.KEY_BITS_26 = L_KEY_BITS /\ zN GenHll.AUX_TOKEN = L_AUX_TOKEN /\ zN GenHll.COUPON_SIZE_BYTES = 4.
+Proof. repeat split; reflexivity. Qed.
+
+Lemma mode_byte_spec : forall cur t, cur < 4 -> mode_byte cur t = mode_b cur (tgt_num t).
+Proof.
+  intros cur t H. assert (Hc : cur = 0 \/ cur = 1 \/ cur = 2 \/ cur = 3) by lia.
+  destruct Hc as [ -> | [ -> | [ -> | -> ] ] ]; destruct t; reflexivity.
+Qed.
+
+Lemma decoder_example :
+  (exists im, hll_spec_decode (enc_list true 10 2 [67108865; 134217731]) = Some im /\ im_coupons im = [67108865; 134217731] /\
+              im_mode im = 0 /\ im_type im = 2 /\ im_lgk im = 10) /\
+  (exists im, hll_spec_decode (enc_hll_pre true false 4 0 0 1 0 0 0 1 1 ++ [0xF1; 0x11; 0x11; 0x11; 0x11; 0x11; 0x11; 0x11]
+                               ++ le_bytes 4 (20 * 67108864 + 1)) = Some im /\
+              im_regs im = [2; 20; 2; 2; 2; 2; 2; 2; 2; 2; 2; 2; 2; 2; 2; 2] /\ im_aux im = [(1, 20)]).
+Proof. vm_compute. split; eexists; repeat split; reflexivity. Qed.
